@@ -54,7 +54,7 @@ def main():
     for l in run_txt.splitlines():
         l = l.strip()
         l = re.sub(r"^cd \S+\s*&&\s*", "", l)
-        l = re.sub(r"/tmp/seed2?-C\d+", WT, l)
+        l = re.sub(r"/tmp/seed[23]?-C\d+", WT, l)
         l = l.replace("<worktree>", WT).replace("<this dir>/../", seed + "/").replace("<this dir>", demo_dir)
         l = re.sub(r"^git apply (\S*/)?patch\.diff$", "git apply " + patch, l)
         # ENV=... cargo ...  ->  keep the assignments as a prefix the shell understands, mark as cargo
